@@ -2,7 +2,7 @@
 import ast
 
 from ..engine import rule
-from ..ir import ClassInfo, dotted, kwarg, norm, own_calls, own_nodes, short
+from ..ir import ClassInfo, ancestors, dotted, kwarg, norm, own_calls, own_nodes, short
 from .. import q
 
 
@@ -217,3 +217,25 @@ def buffers_bounded_by_amount(ctx):
             a = c.args[1] if len(c.args) > 1 else kwarg(c, 'chunksize')
             ok = a is not None and q.derives_from(sm, a, lambda n: isinstance(n, ast.Call) and (dotted(n.func) or '').endswith('adjust_chunksize'))
             ctx.ob(sm, c, ok, 'part bodies must be cut with the adjusted chunk size')
+
+
+@rule('C11.f', ['C11', 'C01'], floor=1)
+def countdown_reads_ask_for_what_remains(ctx):
+    """Contradiction rule: a loop that counts a remaining amount down by the length of what it just read
+    (`remaining -= len(chunk)`) must ask the stream for at most that remaining amount
+    (`read(remaining)` / `read(min(remaining, ..))`).  Asking for anything else overshoots after a short
+    read: the buffer grows beyond the requested (part / chunk) size."""
+    n = 0
+    for f in ctx.p.all_functions():
+        for loop in [x for x in own_nodes(f.node) if isinstance(x, (ast.While, ast.For))]:
+            decs = [x for x in ast.walk(loop) if isinstance(x, ast.AugAssign) and isinstance(x.op, ast.Sub) and isinstance(x.target, ast.Name)
+                    and isinstance(x.value, ast.Call) and norm(x.value.func) == 'len' and x.value.args and isinstance(x.value.args[0], ast.Name)]
+            for d in decs:
+                rem, chunk = d.target.id, d.value.args[0].id
+                reads = [v for st, v in q.local_defs(f, chunk) if isinstance(v, ast.Call) and isinstance(v.func, ast.Attribute) and v.func.attr == 'read'
+                         and any(a is loop for a in ancestors(v))]
+                for rd in reads:
+                    n += 1
+                    ok = bool(rd.args) and rem in q.names_in(rd.args[0])
+                    ctx.ob(f, rd, ok, f'the loop counts {rem} down by len({chunk}) but reads {norm(rd.args[0]) if rd.args else "everything"}: after a short read it takes more than was asked for')
+    ctx.ob('<package>', 'count-down read loops ask for the remaining amount', True, f'{n} such loops', trivial=True)
